@@ -4,7 +4,7 @@ Explicit-state search over the life-cycle machine of one PPTable, for every tabl
 
   table     = column description tuple (<= 2 / <= 3 descriptions out of COLS: fixed, ranged and default
               widths, enum modifiers, break-by, repeated fields, hidden fields) x initial record limits
-              (none given, '*', '1:1') x record set (3 records: nothing is ever skipped; 6 records: '1:1'
+              (none given, '*', '1:1', '2:0') x record set (3 records: nothing is ever skipped; 6 records: '1:1'
               skips lines, and the longest values sit in the skipped part)
   operations= print | fmt = str(fmt) | fmt = "" | fmt = ";" | fmt = ";;" | fmt = ";1:1" | fmt = ";*" |
               fmt = "*" | fmt = <other explicit format> | rebuild (replace the table by
@@ -32,8 +32,8 @@ TITLE = "A table's reported format string reproduces the table"
 TECHNIQUE = ("explicit-state search (BFS, replay from a fresh table, canonical state keys) over the table "
              "life-cycle machine for every table of a column-description alphabet; differential oracle")
 DESIGN_REF = "§2 C13"
-LEVEL_TEXT = ("For every table built from <= 2 (quick) / <= 3 (thorough) column descriptions, three initial "
-              "record limits and two record sets, every state reachable by <= 3 / <= 4 life-cycle operations "
+LEVEL_TEXT = ("For every table built from <= 2 (quick) / <= 3 (thorough) column descriptions, four initial "
+              "record limits (one with a zero) and two record sets, every state reachable by <= 3 / <= 4 life-cycle operations "
               "is visited; in each state str(table.fmt) is fed to the setter and to the constructor and the "
               "renderings are compared; empty formats must change nothing.")
 LEVEL_NOTE = ("Bounded: column alphabet of 17 descriptions over three fields, two record sets, depth of the "
@@ -51,7 +51,7 @@ ASSUMPTIONS = [
     "min width <= max width",
 ]
 REQUIRED_FEATURES = ["col:fixed", "col:ranged", "col:default-width", "col:modifier", "col:break-by",
-                     "col:repeated-field", "col:hidden", "limits:none", "limits:star", "limits:1:1",
+                     "col:repeated-field", "col:hidden", "limits:none", "limits:star", "limits:1:1", "limits:2:0",
                      "state:fresh", "state:printed", "state:re-formatted", "state:printed-lines-skipped",
                      "op:rebuild-accepted", "op:set-own-fmt-accepted", "fmt:width-annotation", "fmt:limits-omitted"]
 
@@ -62,18 +62,19 @@ COLS = ["id:3", "name:5", "st:12",                     # fixed (name:5 truncates
         "st/val", "st/name:3-20", "st/full:20",          # enum modifiers
         "id!:2", "st!", "st/name!:3-8", "name!",         # break-by
         "name:-1"]                                       # hidden field
-COLS3 = ["id:3", "name:2-6", "name:3-20", "st", "st/val", "st/name!:3-8", "id!:2", "name!", "name:-1", "st:4-30"]
-LIMITS = {"none": "", "star": ";*", "1:1": ";1:1"}
+COLS3 = ["id:3", "name:2-6", "name:3-20", "st", "st/val", "st/name!:3-8", "id!:2", "name!", "name:-1", "st:4-30",
+         "id", "st/full:20"]
+LIMITS = {"none": "", "star": ";*", "1:1": ";1:1", "2:0": ";2:0"}
 RECORDS = {
     "small": [(1, "ab", 10), (2, "abcdefgh", 10), (3, "abc", 999)],
     "big": [(1, "ab", 10), (22, "abcdefghij", 10), (333, "abc", 999), (4, None, 7), (5, "abcdefg", 20),
             (6, "a", 20)],
 }
 OTHER_FMT = "name:2-7,id!:3"
-OPS = ["print", "set:self", "set:empty", "set:seps", "set:seps2", "set:lim11", "set:limall", "set:star",
-       "set:other", "rebuild"]
-_SET = {"set:empty": "", "set:seps": ";", "set:seps2": ";;", "set:lim11": ";1:1", "set:limall": ";*",
-        "set:star": "*", "set:other": OTHER_FMT}
+OPS = ["print", "set:self", "set:empty", "set:seps", "set:seps2", "set:lim11", "set:lim01", "set:limall",
+       "set:star", "set:other", "rebuild"]
+_SET = {"set:empty": "", "set:seps": ";", "set:seps2": ";;", "set:lim11": ";1:1", "set:lim01": ";0:1",
+        "set:limall": ";*", "set:star": "*", "set:other": OTHER_FMT}
 EMPTY_FORMATS = ["", ";", ";;"]
 
 
